@@ -132,7 +132,8 @@ def main():
     # ASan lane: many more histories, all six codecs
     asan_n = 1500 if not thorough else 120000
     for j in range(JOBS):
-        jobs.append({"lane": "asan", "workload_seed": SEED, "first": 1_000_000 + j * asan_n, "n": asan_n, "mode": ""})
+        # real OS threads are not under a scheduler we control: the concurrency template stays in the Miri lane
+        jobs.append({"lane": "asan", "workload_seed": SEED, "first": 1_000_000 + j * asan_n, "n": asan_n, "mode": "no-threads"})
     results = []
     with ThreadPoolExecutor(max_workers=JOBS) as ex:
         for job, (rc, out) in zip(jobs, ex.map(run_job, jobs)):
@@ -188,10 +189,12 @@ def main():
             exit_code = 1
         else:
             print(f"HARNESS-ERROR: {kind} does not replay ({path})", file=sys.stderr)
-            exit_code = 2
+            if exit_code == 0:
+                exit_code = 2
     for job, kind, out in harness:
         print(f"HARNESS-ERROR: {kind} in job {job}\n{out[-1500:]}", file=sys.stderr)
-        exit_code = 2
+        if exit_code == 0:
+            exit_code = 2
     wall = time.time() - t0
     total_hist = histories["miri"] + histories["asan"]
     evidence = {
